@@ -408,6 +408,11 @@ pub fn case_compile(ctx: &mut Ctx, case: &Value) {
                         if let Err(e) = dumps_agree(&a, &b) {
                             ctx.fail_corr(case, format!("compiled games differ: {}", e));
                         }
+                        // the public count N of C03's rate is the number of infosets of the model's game
+                        let n_model = b.p[0].len() + b.p[1].len();
+                        if g.num_infosets() != n_model {
+                            ctx.fail_corr(case, format!("num_infosets() = {}, the model's game has {} player infosets", g.num_infosets(), n_model));
+                        }
                     }
                     _ => ctx.fail_corr(case, "could not parse a game dump".to_string()),
                 },
